@@ -188,6 +188,64 @@ class HarnessGen:
         w('std::mem::forget(v); std::mem::forget(r);')
         w.close()
 
+    # ------------------------------------------------------------------ C15 enum conversions
+    def h_c15(self, w: W, e: str, L: int):
+        """TryFrom<uN> / From<E> exact over the whole backing integer (no bound)"""
+        d = self.m.decls[e]
+        width = d.width
+        bt = backing(width)
+        is_open = self.m.enum_is_open(e)
+        w('#[kani::proof]')
+        w.open(f'fn c15_{e}() {{')
+        w(f'let x: u{bt} = kani::any();')
+        w('let xv: u64 = x as u64;')
+        inw = 'true' if width == 64 else f'xv < {1 << width:#x}u64'
+        w(f'let in_width: bool = {inw};')
+        w(f'let member: bool = {self.rr.member_expr(e, "xv")};')
+        w(f'let expect_ok: bool = in_width && (member || {"true" if is_open else "false"});')
+        w.open(f'match {e}::try_from(x) {{')
+        w.open('Ok(v) => {')
+        w('assert!(expect_ok, "C15: conversion accepts an integer outside the declared value set");')
+        w(f'assert!(u{bt}::from(v) == x, "C15: converting back does not yield the integer");')
+        w(f'assert!(u{bt}::from(&v) == x, "C15: converting a reference back does not yield the integer");')
+        tags_seen = []
+        for t in d.tags:
+            if isinstance(t, M.TagValue):
+                w(f'if xv == {t.value:#x}u64 {{ assert!(matches!(v, {e}::{camel(t.name)}), "C15: named tag not returned"); }}')
+                tags_seen.append(t.value)
+            elif isinstance(t, M.TagRange):
+                inner = []
+                for x_ in t.tags:
+                    w(f'if xv == {x_.value:#x}u64 {{ assert!(matches!(v, {e}::{camel(x_.name)}), "C15: named tag inside a range not returned"); }}')
+                    inner.append(f'xv != {x_.value:#x}u64')
+                cond = f'xv >= {t.lo:#x}u64 && xv <= {t.hi:#x}u64' + (' && ' + ' && '.join(inner) if inner else '')
+                w(f'if {cond} {{ assert!(matches!(v, {e}::{camel(t.name)}(_)), "C15: range variant not returned"); }}')
+        other = [t for t in d.tags if isinstance(t, M.TagOther)]
+        covered = set()
+        ivs = sorted([(t.value, t.value) for t in d.tags if isinstance(t, M.TagValue)] +
+                     [(t.lo, t.hi) for t in d.tags if isinstance(t, M.TagRange)])
+        nxt = 0
+        for lo, hi in ivs:
+            if lo > nxt:
+                break
+            nxt = max(nxt, hi + 1)
+        complete = nxt >= (1 << width)
+        if other and not complete:
+            w(f'if !member {{ assert!(matches!(v, {e}::{camel(other[0].name)}(_)), "C15: default variant not returned"); }}')
+        for wd in (8, 16, 32, 64):
+            if wd > width:
+                w(f'assert!(i{wd}::from(v) as i128 == xv as i128, "C15: widening conversion to i{wd} changes the value");')
+            if wd >= width and wd != bt:
+                w(f'assert!(u{wd}::from(v) as u64 == xv, "C15: widening conversion to u{wd} changes the value");')
+        w('kani::cover!(true, "accepting path");')
+        w.close()
+        w.open('Err(r) => {')
+        w('assert!(!expect_ok, "C15: conversion rejects a declared value");')
+        w('assert!(r == x, "C15: the rejected integer is not returned unchanged");')
+        w.close()
+        w.close()
+        w.close()
+
     # ------------------------------------------------------------------ C18 Packet trait laws
     def h_c18d(self, w: W, t: str, L: int):
         """decode / decode_full / decode_mut laws, and encode laws on the decoded value"""
